@@ -1,0 +1,595 @@
+//go:build verif
+
+package internal
+
+// TestVerifRealDriver: Registry / cluster on the REAL etcd client (NewClient = clientv3.New), talking gRPC to an
+// in-process stand-in for an etcd member (Maintenance.Status, KV.Range, Watch.Watch). This is the only way to run
+// cluster.newClient and the connection-state watcher it starts (NewClient is a plain function and
+// ActiveConnection() a concrete *grpc.ClientConn): the driver stops and restarts the member and lets the client's
+// own connectivity states trigger reload. The messages are written/read at protobuf wire level so that no package
+// of go.etcd.io/etcd/api has to be imported (go.mod lists that module as indirect).
+
+import (
+	"encoding/json"
+	"fmt"
+	"net"
+	"sort"
+	"strings"
+	"sync"
+	"testing"
+	"time"
+
+	"github.com/gotid/god/internal/verifdrv"
+	"github.com/gotid/god/lib/lang"
+	"google.golang.org/grpc"
+	"google.golang.org/grpc/connectivity"
+	"google.golang.org/grpc/keepalive"
+)
+
+// ---------------------------------------------------------------- protobuf wire format (the few messages used)
+
+type verifRaw struct{}
+
+func (verifRaw) Marshal(v any) ([]byte, error) {
+	b, ok := v.(*[]byte)
+	if !ok {
+		return nil, fmt.Errorf("verif codec: %T", v)
+	}
+	return *b, nil
+}
+
+func (verifRaw) Unmarshal(data []byte, v any) error {
+	b, ok := v.(*[]byte)
+	if !ok {
+		return fmt.Errorf("verif codec: %T", v)
+	}
+	*b = append([]byte(nil), data...)
+	return nil
+}
+
+func (verifRaw) Name() string { return "proto" }
+
+func pbVarint(b []byte, x uint64) []byte {
+	for x >= 0x80 {
+		b = append(b, byte(x)|0x80)
+		x >>= 7
+	}
+	return append(b, byte(x))
+}
+
+func pbInt(b []byte, field int, x int64) []byte {
+	if x == 0 {
+		return b
+	}
+	b = pbVarint(b, uint64(field)<<3)
+	return pbVarint(b, uint64(x))
+}
+
+func pbBytes(b []byte, field int, x []byte) []byte {
+	b = pbVarint(b, uint64(field)<<3|2)
+	b = pbVarint(b, uint64(len(x)))
+	return append(b, x...)
+}
+
+type pbField struct {
+	num int
+	n   uint64 // varint value
+	b   []byte // length-delimited value
+}
+
+func pbParse(b []byte) []pbField {
+	var out []pbField
+	for len(b) > 0 {
+		var tag uint64
+		var sh uint
+		i := 0
+		for ; i < len(b); i++ {
+			tag |= uint64(b[i]&0x7f) << sh
+			sh += 7
+			if b[i] < 0x80 {
+				i++
+				break
+			}
+		}
+		b = b[i:]
+		f := pbField{num: int(tag >> 3)}
+		switch tag & 7 {
+		case 0:
+			sh, i = 0, 0
+			for ; i < len(b); i++ {
+				f.n |= uint64(b[i]&0x7f) << sh
+				sh += 7
+				if b[i] < 0x80 {
+					i++
+					break
+				}
+			}
+			b = b[i:]
+		case 2:
+			var l uint64
+			sh, i = 0, 0
+			for ; i < len(b); i++ {
+				l |= uint64(b[i]&0x7f) << sh
+				sh += 7
+				if b[i] < 0x80 {
+					i++
+					break
+				}
+			}
+			b = b[i:]
+			if uint64(len(b)) < l {
+				return out
+			}
+			f.b = b[:l]
+			b = b[l:]
+		case 1:
+			if len(b) < 8 {
+				return out
+			}
+			b = b[8:]
+		case 5:
+			if len(b) < 4 {
+				return out
+			}
+			b = b[4:]
+		default:
+			return out
+		}
+		out = append(out, f)
+	}
+	return out
+}
+
+func pbHeader(rev int64) []byte { // ResponseHeader{cluster_id=1, member_id=2, revision=3, raft_term=4}
+	var h []byte
+	h = pbInt(h, 1, 1)
+	h = pbInt(h, 2, 1)
+	h = pbInt(h, 3, rev)
+	return pbInt(h, 4, 1)
+}
+
+func pbKeyValue(key, val string, modRev int64) []byte { // mvccpb.KeyValue{key=1, create=2, mod=3, version=4, value=5}
+	var kv []byte
+	kv = pbBytes(kv, 1, []byte(key))
+	kv = pbInt(kv, 2, modRev)
+	kv = pbInt(kv, 3, modRev)
+	kv = pbInt(kv, 4, 1)
+	if val != "" {
+		kv = pbBytes(kv, 5, []byte(val))
+	}
+	return kv
+}
+
+// ---------------------------------------------------------------- the stand-in member
+
+type verifChange struct {
+	put      bool
+	key, val string
+	rev      int64
+}
+
+type verifSrvWatch struct {
+	id       int64
+	key, end string
+	stream   grpc.ServerStream
+	sendMu   *sync.Mutex
+	alive    bool
+}
+
+type verifMember struct {
+	mu      sync.Mutex
+	addr    string
+	srv     *grpc.Server
+	store   map[string]string
+	rev     int64
+	watches []*verifSrvWatch
+	nextID  int64
+	trace   []string // "range <key>" | "create <key> <start_revision>" in arrival order
+}
+
+func (m *verifMember) selects(w *verifSrvWatch, k string) bool {
+	if w.end == "" {
+		return k == w.key
+	}
+	return k >= w.key && k < w.end
+}
+
+func (m *verifMember) handler(_ any, stream grpc.ServerStream) error {
+	method, _ := grpc.MethodFromServerStream(stream)
+	switch method {
+	case "/etcdserverpb.Maintenance/Status":
+		var req []byte
+		if err := stream.RecvMsg(&req); err != nil {
+			return err
+		}
+		m.mu.Lock()
+		resp := pbBytes(nil, 1, pbHeader(m.rev)) // StatusResponse{header=1, version=2}
+		m.mu.Unlock()
+		resp = pbBytes(resp, 2, []byte("3.5.5"))
+		return stream.SendMsg(&resp)
+	case "/etcdserverpb.KV/Range":
+		var req []byte
+		if err := stream.RecvMsg(&req); err != nil {
+			return err
+		}
+		var key, end string
+		for _, f := range pbParse(req) { // RangeRequest{key=1, range_end=2}
+			switch f.num {
+			case 1:
+				key = string(f.b)
+			case 2:
+				end = string(f.b)
+			}
+		}
+		m.mu.Lock()
+		var keys []string
+		for k := range m.store {
+			if (end == "" && k == key) || (end != "" && k >= key && k < end) {
+				keys = append(keys, k)
+			}
+		}
+		sort.Strings(keys)
+		resp := pbBytes(nil, 1, pbHeader(m.rev)) // RangeResponse{header=1, kvs=2, count=4}
+		for _, k := range keys {
+			resp = pbBytes(resp, 2, pbKeyValue(k, m.store[k], 1))
+		}
+		resp = pbInt(resp, 4, int64(len(keys)))
+		m.trace = append(m.trace, "range "+key)
+		m.mu.Unlock()
+		return stream.SendMsg(&resp)
+	case "/etcdserverpb.Watch/Watch":
+		sendMu := &sync.Mutex{}
+		var mine []*verifSrvWatch
+		defer func() {
+			m.mu.Lock()
+			for _, w := range mine {
+				w.alive = false
+			}
+			m.mu.Unlock()
+		}()
+		for {
+			var req []byte
+			if err := stream.RecvMsg(&req); err != nil {
+				return nil
+			}
+			for _, f := range pbParse(req) { // WatchRequest{create_request=1, cancel_request=2, progress_request=3}
+				switch f.num {
+				case 1:
+					w := &verifSrvWatch{stream: stream, sendMu: sendMu, alive: true}
+					var start int64
+					for _, g := range pbParse(f.b) { // WatchCreateRequest{key=1, range_end=2, start_revision=3}
+						switch g.num {
+						case 1:
+							w.key = string(g.b)
+						case 2:
+							w.end = string(g.b)
+						case 3:
+							start = int64(g.n)
+						}
+					}
+					m.mu.Lock()
+					w.id = m.nextID
+					m.nextID++
+					m.watches = append(m.watches, w)
+					mine = append(mine, w)
+					m.trace = append(m.trace, fmt.Sprintf("create %s %d", w.key, start))
+					resp := pbBytes(nil, 1, pbHeader(m.rev)) // WatchResponse{header=1, watch_id=2, created=3}
+					m.mu.Unlock()
+					resp = pbInt(resp, 2, w.id)
+					resp = pbInt(resp, 3, 1)
+					if w.id == 0 { // proto3 omits zero: nothing to add, the client reads watch_id 0
+					}
+					sendMu.Lock()
+					err := stream.SendMsg(&resp)
+					sendMu.Unlock()
+					if err != nil {
+						return nil
+					}
+				case 2:
+					var id int64
+					for _, g := range pbParse(f.b) {
+						if g.num == 1 {
+							id = int64(g.n)
+						}
+					}
+					m.mu.Lock()
+					for _, w := range mine {
+						if w.id == id {
+							w.alive = false
+						}
+					}
+					resp := pbBytes(nil, 1, pbHeader(m.rev))
+					m.mu.Unlock()
+					resp = pbInt(resp, 2, id)
+					resp = pbInt(resp, 4, 1) // canceled
+					sendMu.Lock()
+					_ = stream.SendMsg(&resp)
+					sendMu.Unlock()
+				}
+			}
+		}
+	}
+	return fmt.Errorf("verif member: %s not scripted", method)
+}
+
+func (m *verifMember) start() error {
+	var lis net.Listener
+	var err error
+	for i := 0; i < 50; i++ {
+		addr := m.addr
+		if addr == "" {
+			addr = "127.0.0.1:0"
+		}
+		if lis, err = net.Listen("tcp", addr); err == nil {
+			break
+		}
+		time.Sleep(20 * time.Millisecond)
+	}
+	if err != nil {
+		return err
+	}
+	m.addr = lis.Addr().String()
+	srv := grpc.NewServer(grpc.ForceServerCodec(verifRaw{}), grpc.UnknownServiceHandler(m.handler),
+		grpc.KeepaliveEnforcementPolicy(keepalive.EnforcementPolicy{MinTime: time.Second, PermitWithoutStream: true}))
+	m.mu.Lock()
+	m.srv = srv
+	m.mu.Unlock()
+	go srv.Serve(lis)
+	return nil
+}
+
+func (m *verifMember) stop() {
+	m.mu.Lock()
+	srv := m.srv
+	m.srv = nil
+	for _, w := range m.watches {
+		w.alive = false
+	}
+	m.mu.Unlock()
+	if srv != nil {
+		srv.Stop()
+	}
+}
+
+// commit changes the store; online = the member is up and tells every watch that selects the key
+func (m *verifMember) commit(put bool, key, val string, online bool) {
+	m.mu.Lock()
+	if !put {
+		if _, ok := m.store[key]; !ok {
+			m.mu.Unlock()
+			return
+		}
+		delete(m.store, key)
+	} else {
+		m.store[key] = val
+	}
+	m.rev++
+	rev := m.rev
+	var ws []*verifSrvWatch
+	if online {
+		for _, w := range m.watches {
+			if w.alive && m.selects(w, key) {
+				ws = append(ws, w)
+			}
+		}
+	}
+	m.mu.Unlock()
+	for _, w := range ws {
+		var ev []byte // mvccpb.Event{type=1 (PUT 0, DELETE 1), kv=2}
+		if !put {
+			ev = pbInt(ev, 1, 1)
+			ev = pbBytes(ev, 2, pbKeyValue(key, "", rev))
+		} else {
+			ev = pbBytes(ev, 2, pbKeyValue(key, val, rev))
+		}
+		resp := pbBytes(nil, 1, pbHeader(rev)) // WatchResponse{header=1, watch_id=2, events=11}
+		resp = pbInt(resp, 2, w.id)
+		resp = pbBytes(resp, 11, ev)
+		w.sendMu.Lock()
+		_ = w.stream.SendMsg(&resp)
+		w.sendMu.Unlock()
+	}
+}
+
+func (m *verifMember) traceLen() int {
+	m.mu.Lock()
+	defer m.mu.Unlock()
+	return len(m.trace)
+}
+
+// after position from: a snapshot read of the prefix, and `creates` watch creations for it. When the connection
+// comes back the client itself re-creates every watch it ever opened (it resumes them), in no particular order
+// with respect to the reload's snapshot; the watch the reload ends with is one more.
+func (m *verifMember) reloaded(from int, prefix string, creates int) bool {
+	m.mu.Lock()
+	defer m.mu.Unlock()
+	seenRange := false
+	n := 0
+	for _, t := range m.trace[from:] {
+		if t == "range "+prefix {
+			seenRange = true
+		} else if strings.HasPrefix(t, "create "+prefix+" ") {
+			n++
+		}
+	}
+	return seenRange && n >= creates
+}
+
+// ---------------------------------------------------------------- cases
+
+type verifRealEvent struct {
+	T string `json:"t"` // getconn | sub | put | del | outage | online
+	K string `json:"k"`
+	V string `json:"v"`
+	D bool   `json:"d"`
+}
+
+type verifRealCase struct {
+	Prefix string           `json:"prefix"`
+	Events []verifRealEvent `json:"events"`
+}
+
+type verifRealStep struct {
+	Calls    [][][]string `json:"calls"`
+	Cvals    [][2]string  `json:"cvals"`
+	HasCvals bool         `json:"has_cvals"`
+	Stuck    string       `json:"stuck"`
+}
+
+func verifWaitShort(d time.Duration, cond func() bool) bool {
+	deadline := time.Now().Add(d)
+	for !cond() {
+		if time.Now().After(deadline) {
+			return false
+		}
+		time.Sleep(200 * time.Microsecond)
+	}
+	return true
+}
+
+func TestVerifRealDriver(t *testing.T) {
+	verifdrv.Run(t, func(raw json.RawMessage) any {
+		var cs verifRealCase
+		if err := json.Unmarshal(raw, &cs); err != nil {
+			return map[string]any{"error": err.Error()}
+		}
+		m := &verifMember{store: map[string]string{}, rev: 1}
+		if err := m.start(); err != nil {
+			return map[string]any{"error": err.Error()}
+		}
+		defer m.stop()
+		endpoints := []string{m.addr}
+		reg := &Registry{clusters: make(map[string]*cluster)}
+		pfx := cs.Prefix + string(rune(Delimiter))
+		var listeners []*verifListener
+		var cli EtcdClient
+		streams := 0 // watch goroutines the code is running for the prefix
+		opened := 0  // watches the client has opened so far (it resumes all of them after a reconnect)
+		up := true
+		steps := []verifRealStep{}
+		stuck := ""
+		defer func() {
+			if cli != nil {
+				cli.Close()
+			}
+		}()
+		total := func() int {
+			n := 0
+			for _, l := range listeners {
+				l.mu.Lock()
+				n += len(l.calls)
+				l.mu.Unlock()
+			}
+			return n
+		}
+		for _, ev := range cs.Events {
+			if stuck != "" {
+				break
+			}
+			tr0 := m.traceLen()
+			switch ev.T {
+			case "getconn":
+				// what Publisher.KeepAlive does first
+				c, err := reg.GetConn(endpoints)
+				if err != nil {
+					stuck = "GetConn: " + err.Error()
+				}
+				cli = c
+			case "sub":
+				l := &verifListener{}
+				listeners = append(listeners, l)
+				done := make(chan error, 1)
+				go func() { done <- reg.Monitor(endpoints, cs.Prefix, l) }()
+				select {
+				case err := <-done:
+					if err != nil {
+						stuck = "monitor error: " + err.Error()
+					}
+				case <-time.After(2 * verifWait):
+					stuck = "monitor"
+				}
+				if stuck == "" && !verifWaitFor(func() bool { return m.reloaded(tr0, pfx, 1) }) {
+					stuck = "watch after monitor"
+				}
+				streams++
+				opened++
+				if cli == nil {
+					if c, err := reg.GetConn(endpoints); err == nil {
+						cli = c
+					}
+				}
+			case "put", "del":
+				n0 := total()
+				m.commit(ev.T == "put", ev.K, ev.V, up && ev.D)
+				if up && ev.D && strings.HasPrefix(ev.K, pfx) {
+					// every running stream hands the event to every listener
+					verifWaitShort(2*time.Second, func() bool { return total() >= n0+streams*len(listeners) })
+				}
+			case "outage":
+				m.stop()
+				up = false
+				if cli != nil {
+					conn := cli.ActiveConnection()
+					if !verifWaitFor(func() bool { return conn.GetState() == connectivity.TransientFailure }) {
+						stuck = "connection does not fail"
+					}
+					time.Sleep(20 * time.Millisecond) // the state watcher reads the state it was woken for
+				}
+			case "online":
+				reg.lock.Lock()
+				clu := reg.clusters[getClusterKey(endpoints)]
+				reg.lock.Unlock()
+				var done0 chan lang.PlaceholderType
+				if clu != nil {
+					clu.lock.Lock()
+					done0 = clu.done
+					clu.lock.Unlock()
+				}
+				if err := m.start(); err != nil {
+					stuck = "restart: " + err.Error()
+					break
+				}
+				up = true
+				if clu != nil && cli != nil {
+					// reconnect (after the client's backoff) -> Ready -> state watcher -> reload: it replaces c.done
+					// under the lock under which it also collects the listened keys
+					if !verifWaitShort(6*time.Second, func() bool {
+						clu.lock.Lock()
+						defer clu.lock.Unlock()
+						return clu.done != done0
+					}) {
+						stuck = "no reload after the connection came back"
+						break
+					}
+				}
+				if len(listeners) > 0 {
+					// reconnect (after the client's backoff) -> Ready -> state watcher -> reload: snapshot, then watch
+					if !verifWaitShort(6*time.Second, func() bool { return m.reloaded(tr0, pfx, opened+1) }) {
+						stuck = "no reload after the connection came back"
+					}
+					streams = 1
+					opened++
+				}
+			}
+			st := verifRealStep{Stuck: stuck, Calls: [][][]string{}, Cvals: [][2]string{}}
+			for _, l := range listeners {
+				st.Calls = append(st.Calls, l.take())
+			}
+			reg.lock.Lock()
+			cl := reg.clusters[getClusterKey(endpoints)]
+			reg.lock.Unlock()
+			if cl != nil {
+				cl.lock.Lock()
+				vals, ok := cl.values[cs.Prefix]
+				st.HasCvals = ok
+				for k, v := range vals {
+					st.Cvals = append(st.Cvals, [2]string{k, v})
+				}
+				cl.lock.Unlock()
+				sort.Slice(st.Cvals, func(i, j int) bool { return st.Cvals[i][0] < st.Cvals[j][0] })
+			}
+			steps = append(steps, st)
+		}
+		return map[string]any{"steps": steps}
+	})
+}
